@@ -61,6 +61,7 @@ func (r *propResult) fail(key, input, entry, detail string) {
 }
 
 type propOpts struct {
+	prop   string
 	tier   string
 	seed   uint64
 	hints  []string // request lines on which a correspondence channel disagreed: searched first
@@ -74,7 +75,7 @@ func propMain(args []string) {
 		fmt.Fprintln(os.Stderr, "usage: mfh prop <Cxx> <tier> <seed> [--hints file] [--input json]")
 		os.Exit(2)
 	}
-	o := &propOpts{tier: args[1]}
+	o := &propOpts{prop: args[0], tier: args[1]}
 	o.seed, _ = strconv.ParseUint(args[2], 10, 64)
 	for i := 3; i+1 < len(args); i += 2 {
 		switch args[i] {
